@@ -615,7 +615,8 @@ class Chaos:
                     return None
                 bi, i = r.choice(done)
                 extra = [x[1] for x in ro if x[0] == bi][:1] if cfg["multi"] and r.random() < 0.5 else []
-                base.update(pl=bi, ops=extra + [i])
+                # (a suspended container's own list: finished operators first, then the rest)
+                base.update(pl=bi, ops=([i] + extra) if r.random() < 0.5 else (extra + [i]))
             elif kind == "construct_suspending":
                 live = [(bi, i) for bi, b in enumerate(self.built) for i, m in enumerate(b.mops) if m.state == M.SU]
                 if not live:
@@ -645,6 +646,10 @@ class Chaos:
                     base["ram"] = r.choice(["0", "-2"])
                 elif kind == "construct_empty":
                     base["ops"] = []
+            if r.random() < 0.4:
+                base["resume"] = True       # no flag buys a way around the constructor's checks
+            if r.random() < 0.2:
+                base["force"] = True
             return cmds + [base]
         return None
 
